@@ -1,27 +1,42 @@
 #!/bin/bash
-# tools/mutant.sh <patch-file|revert:SHA> <ID> [ID...]  -- applies a change to /repo, runs the quick checks, undoes it.
-# Prints per check: CAUGHT / MISSED.
+# tools/mutant.sh <patch-file|revert:SHA> <ID> [ID...]
+# Applies a change to a repository copy, runs the quick checks against it and undoes it.
+# By default the copy is /repo itself (apply, run, git checkout); with MUTANT_SCRATCH=1 a scratch worktree of
+# /repo HEAD under /tmp is used instead, so that several sweeps (and other checks) can run at the same time.
+# Prints per check: CAUGHT / MISSED. Evidence and replays of these runs go to a temporary VERIF_ROOT.
 set -u
 P="$1"; shift
 [[ "$P" != revert:* ]] && P="$(realpath "$P")"
-cd /repo || exit 2
-if [ -n "$(git status --porcelain --untracked-files=no)" ]; then echo "/repo not clean"; exit 2; fi
+REPO=/repo
+if [ -n "${MUTANT_SCRATCH:-}" ]; then
+  REPO=/tmp/mutant-wt-$$
+  git -C /repo worktree add -q --detach $REPO HEAD || exit 2
+fi
+cd $REPO || exit 2
+if [ -n "$(git status --porcelain --untracked-files=no)" ]; then echo "$REPO not clean"; exit 2; fi
+cleanup() {
+  if [ "$REPO" = /repo ]; then git -C /repo checkout -- . ; else git -C /repo worktree remove --force $REPO; fi
+  rm -rf "$VERIF_ROOT"
+  if [ "$REPO" != /repo ]; then
+    SFX="$(echo "$REPO" | md5sum | cut -c1-8)"
+    rm -f /verif/.build/*-$SFX.test /verif/.build/alt-$SFX.* /verif/.build/.lock*-$SFX
+  fi
+}
+export VERIF_ROOT=/tmp/verif-mutant-$$
+trap cleanup EXIT
 if [[ "$P" == revert:* ]]; then
-  git show "${P#revert:}" | git apply -R || { echo "revert apply failed"; exit 2; }
+  git -C /repo show "${P#revert:}" | git apply -R || { echo "revert apply failed"; exit 2; }
 else
   git apply "$P" || { echo "apply failed"; exit 2; }
 fi
-trap 'git -C /repo checkout -- . ' EXIT
-export VERIF_ROOT=/tmp/verif-mutant-$$
 mkdir -p $VERIF_ROOT
 cp /verif/known_findings.json $VERIF_ROOT/
 for ID in "$@"; do
-  OUT=$(cd /verif && VERIF_ROOT_OVERRIDE=1 ./run.sh "$ID" ${TIER:-quick} ${RACE:-} 2>&1)
+  OUT=$(cd /verif && VERIF_REPO=$REPO VERIF_ROOT_OVERRIDE=1 ./run.sh "$ID" ${TIER:-quick} ${RACE:-} 2>&1)
   rc=$?
   if echo "$OUT" | grep -q "^VIOLATION property=$ID"; then
-    echo "CAUGHT $ID by $(basename $P): $(echo "$OUT" | grep -A2 '^VIOLATION' | sed -n '2,3p' | tr '\n' ' ' | cut -c1-300)"
+    echo "CAUGHT $ID by $(basename $(dirname $P))/$(basename $P): $(echo "$OUT" | grep -A2 '^VIOLATION' | sed -n '2,3p' | tr '\n' ' ' | cut -c1-300)"
   else
-    echo "MISSED $ID by $(basename $P) (rc=$rc): $(echo "$OUT" | tail -3 | tr '\n' ' ' | cut -c1-300)"
+    echo "MISSED $ID by $(basename $(dirname $P))/$(basename $P) (rc=$rc): $(echo "$OUT" | tail -3 | tr '\n' ' ' | cut -c1-300)"
   fi
 done
-rm -rf $VERIF_ROOT
